@@ -72,51 +72,51 @@ theorem pE_lift (d f k : Nat) (ts rest : List Tok) (x : Expr) (hk : 2 ≤ k) (hk
 
 mutual
 def cost : Expr → Nat
-  | .name _ => 40 | .const _ => 40 | .negConst _ => 40 | .fstr _ => 40
-  | .boolOp _ a b m => 40 + cost a + cost b + costEs m
-  | .not e => 40 + cost e
-  | .compare l _ r m => 40 + cost l + cost r + costCmp m
-  | .bin _ l r => 40 + cost l + cost r
-  | .unary _ e => 40 + cost e
-  | .ifExp a b c => 40 + cost a + cost b + cost c
-  | .lambda ps b => 40 + costParams ps + cost b
-  | .attr e _ => 40 + cost e
-  | .call f a => 40 + cost f + costArgs a
-  | .subscript e i => 40 + cost e + costIdx i
-  | .subscriptT e is => 40 + cost e + costIdxs is
-  | .list a => 40 + costArgs a
-  | .tuple a => 40 + costArgs a
-  | .dict k => 40 + costKVs k
+  | .name _ => 40 | .const _ => 40 | .negConst _ => 100 | .fstr _ => 40
+  | .boolOp _ a b m => 100 + cost a + cost b + costEs m
+  | .not e => 100 + cost e
+  | .compare l _ r m => 100 + cost l + cost r + costCmp m
+  | .bin _ l r => 100 + cost l + cost r
+  | .unary _ e => 100 + cost e
+  | .ifExp a b c => 100 + cost a + cost b + cost c
+  | .lambda ps b => 100 + costParams ps + cost b
+  | .attr e _ => 100 + cost e
+  | .call f a => 100 + cost f + costArgs a
+  | .subscript e i => 100 + cost e + costIdx i
+  | .subscriptT e is => 100 + cost e + costIdxs is
+  | .list a => 100 + costArgs a
+  | .tuple a => 100 + costArgs a
+  | .dict k => 100 + costKVs k
 def costEs : Exprs → Nat
   | .nil => 1
-  | .cons e t => 40 + cost e + costEs t
+  | .cons e t => 100 + cost e + costEs t
 def costCmp : CmpTail → Nat
   | .nil => 1
-  | .cons _ e t => 40 + cost e + costCmp t
+  | .cons _ e t => 100 + cost e + costCmp t
 def costArgs : Args → Nat
   | .nil => 1
-  | .pos e t => 40 + cost e + costArgs t
-  | .star e t => 40 + cost e + costArgs t
-  | .kw _ e t => 40 + cost e + costArgs t
-  | .dstar e t => 40 + cost e + costArgs t
+  | .pos e t => 100 + cost e + costArgs t
+  | .star e t => 100 + cost e + costArgs t
+  | .kw _ e t => 100 + cost e + costArgs t
+  | .dstar e t => 100 + cost e + costArgs t
 def costOpt : OptE → Nat
   | .none => 1
-  | .some e => 40 + cost e
+  | .some e => 100 + cost e
 def costIdx : Idx → Nat
-  | .ie e => 40 + cost e
-  | .sl a b c => 40 + costOpt a + costOpt b + costOpt c
+  | .ie e => 200 + cost e
+  | .sl a b c => 100 + costOpt a + costOpt b + costOpt c
 def costIdxs : Idxs → Nat
   | .nil => 1
-  | .cons i t => 40 + costIdx i + costIdxs t
+  | .cons i t => 100 + costIdx i + costIdxs t
 def costParams : Params → Nat
   | .nil => 1
-  | .plain _ t => 40 + costParams t
-  | .dflt _ e t => 40 + cost e + costParams t
-  | .var _ t => 40 + costParams t
-  | .kwvar _ t => 40 + costParams t
+  | .plain _ t => 100 + costParams t
+  | .dflt _ e t => 100 + cost e + costParams t
+  | .var _ t => 100 + costParams t
+  | .kwvar _ t => 100 + costParams t
 def costKVs : KVs → Nat
   | .nil => 1
-  | .cons k v t => 40 + cost k + cost v + costKVs t
+  | .cons k v t => 100 + cost k + cost v + costKVs t
 end
 
 theorem codePrio_le (e : Expr) : codePrio e ≤ 16 := by
